@@ -4,7 +4,11 @@
    Conventions: [dep tb t d] = d is in setup_tasks + task_dep of t (the relation
    build_nodes_with_deps follows); [reach] its reflexive-transitive closure; [subdep tb n d] = d is
    a task_dep of n whose subtask_of is n; [before x y l] = x occurs in l strictly before y;
-   [with_deps o] = --clean-all, or no positional argument, or --clean-dep. *)
+   [with_deps o] = --clean-all, or no positional argument, or --clean-dep.
+   [clean_execute_rd .. rd ..] = the command when clean actions ask doit.Globals.dep_manager for saved
+   state (doc/globals.rst): [rd t i] = the tasks whose record clean action i of task t looks up;
+   [ERead t i u b] = that look-up in the trace, b = a record was found; [strip w] = w without the
+   look-up entries of its trace. *)
 From Coq Require Import Permutation Relations.
 From DoitV Require Import Base Clean CleanP.
 Local Open Scope nat_scope.
@@ -107,6 +111,66 @@ Theorem C14_forget_exact : forall pat (fnmatch : name -> pat -> bool) tb o w l w
 Proof. exact T_forget_exact. Qed.
 Print Assumptions C14_forget_exact.
 
+(* ---------------------------------------------------------------- clean actions that look at the DB *)
+(* whatever the clean actions look up (every [rd]), the command is the same command: same error or same
+   cleaned list, same files, same DB, same trace up to the look-up entries.  So every theorem of this
+   file about clean_execute holds for clean_execute_rd; the three about the trace and the DB are
+   restated below *)
+Theorem C14_lookups_transparent : forall pat (fnmatch : name -> pat -> bool) rd tb o w,
+  clean_execute pat fnmatch tb o (strip w) =
+  match clean_execute_rd pat fnmatch rd tb o w with
+  | Ok (l, w') => Ok (l, strip w')
+  | KeyErr => KeyErr | InvalidCmd => InvalidCmd | OutOfFuel => OutOfFuel
+  end.
+Proof. exact T_lookups_transparent. Qed.
+Print Assumptions C14_lookups_transparent.
+
+Theorem C14_once_with_lookups : forall pat (fnmatch : name -> pat -> bool) rd tb o w l w',
+  clean_execute_rd pat fnmatch rd tb o w = Ok (l, w') ->
+  clean_order pat fnmatch tb o = Ok l /\ NoDup l /\ cleans (w_ev w') = cleans (w_ev w) ++ l.
+Proof. exact T_once_rd. Qed.
+Print Assumptions C14_once_with_lookups.
+
+Theorem C14_dryrun_frame_with_lookups : forall pat (fnmatch : name -> pat -> bool) rd tb o w l w',
+  clean_execute_rd pat fnmatch rd tb o w = Ok (l, w') -> o_dryrun o = true ->
+  w_fs w' = w_fs w /\ forall x, In x (w_db w') <-> In x (w_db w).
+Proof. exact T_dryrun_frame_rd. Qed.
+Print Assumptions C14_dryrun_frame_with_lookups.
+
+(* --forget erases the saved state of exactly the cleaned tasks, whether or not a clean action (of the
+   task itself or of another one) looked at that state first *)
+Theorem C14_forget_exact_with_lookups : forall pat (fnmatch : name -> pat -> bool) rd tb o w l w',
+  clean_execute_rd pat fnmatch rd tb o w = Ok (l, w') ->
+  forall x, In x (w_db w') <->
+            In x (w_db w) /\ ~ (o_forget o = true /\ o_dryrun o = false /\ In x l).
+Proof. exact T_forget_exact_rd. Qed.
+Print Assumptions C14_forget_exact_with_lookups.
+
+(* a look-up finds a record iff one was saved before the command and it has not been forgotten by then:
+   with --forget (and no --dry-run) the record of a task cleaned earlier in the same command is gone --
+   exactly those -- while the record of the task being cleaned is still there for its own clean
+   actions.  [pre] = the trace before the look-up; [cleans pre] = the tasks whose Task.clean was
+   entered by then *)
+Theorem C14_lookup_sees_exactly_unforgotten : forall pat (fnmatch : name -> pat -> bool) rd tb o w l w',
+  clean_execute_rd pat fnmatch rd tb o w = Ok (l, w') ->
+  exists tr, w_ev w' = w_ev w ++ tr /\
+  forall pre t i u b post, tr = pre ++ ERead t i u b :: post ->
+    (b = true <-> In u (w_db w) /\
+                  ~ (o_forget o = true /\ o_dryrun o = false /\ In u (cleans pre) /\ u <> t)).
+Proof. exact T_reads. Qed.
+Print Assumptions C14_lookup_sees_exactly_unforgotten.
+
+(* one Task.clean: after its own entry, only look-ups by this task, each finding what is saved when
+   the task starts; no other Task.clean entry; the DB is not touched by it *)
+Theorem C14_task_clean_lookups : forall rd t dry w,
+  exists tr, w_ev (task_clean_rd rd t dry w) = w_ev w ++ EClean (t_name t) :: tr /\
+             Forall (quiet (t_name t) (w_db w)) tr /\ w_db (task_clean_rd rd t dry w) = w_db w.
+Proof.
+  intros rd t dry w. destruct (task_clean_tr rd t dry w) as (tr & E & Q). exists tr.
+  split; [exact E|]. split; [exact Q|]. exact (task_clean_rd_db rd t dry w).
+Qed.
+Print Assumptions C14_task_clean_lookups.
+
 (* ---------------------------------------------------------------- files *)
 (* the command only removes; what it removes is a target of a cleaned `clean: True` task, and was
    a file, or a directory all of whose entries are gone as well (it was empty when removed) *)
@@ -192,6 +256,20 @@ Example C14_forget_dryrun_example :
               = Ok ([5; 1; 2]%N, w') /\ w_db w' = [9%N] /\ w_fs w' = w_fs ex_world) /\
   (exists w', clean_execute unit no_match ex_tb (ex_opts true true false true [SName 5%N] None) ex_world
               = Ok ([5; 1; 2]%N, w') /\ w_db w' = w_db ex_world /\ w_fs w' = w_fs ex_world).
+Proof. split; eexists; vm_compute; auto. Qed.
+
+(* look-ups (ex_rd: the clean action of 5 looks up 1; that of 1 looks up 5, 1 and 2; that of 2 looks
+   up 1 and 2) during `clean --forget -c 5` (order 5, 1, 2; records of 1, 2, 5 and 9 saved): 5 finds
+   1; then 1 no longer finds 5, finds itself and 2; then 2 no longer finds 1 and still finds itself.
+   With --dry-run only the dryrun-aware action of 5 runs, and nothing is forgotten *)
+Example C14_lookup_example :
+  (exists w', clean_execute_rd unit no_match ex_rd ex_tb (ex_opts false true false true [SName 5%N] None) ex_world
+              = Ok ([5; 1; 2]%N, w') /\ w_db w' = [9%N] /\
+     filter is_read (w_ev w') = [ERead 5%N 0 1%N true;
+                                 ERead 1%N 0 5%N false; ERead 1%N 0 1%N true; ERead 1%N 0 2%N true;
+                                 ERead 2%N 0 1%N false; ERead 2%N 0 2%N true]) /\
+  (exists w', clean_execute_rd unit no_match ex_rd ex_tb (ex_opts true true false true [SName 5%N] None) ex_world
+              = Ok ([5; 1; 2]%N, w') /\ w_db w' = w_db ex_world /\ filter is_read (w_ev w') = [ERead 5%N 0 1%N true]).
 Proof. split; eexists; vm_compute; auto. Qed.
 
 (* clean_targets: directory 1 and its two files go (files first), directory 4 stays (a file in it
